@@ -15,7 +15,7 @@
 (***************************************************************************)
 EXTENDS Naturals, Integers, Sequences, FiniteSets, TLC
 
-CONSTANTS SAdd(_,_), SMul(_,_), SNeg(_), SDiv(_,_), SFn(_,_), SPow(_,_), SDPow(_,_), SZero, SOne
+CONSTANTS SAdd(_,_), SMul(_,_), SNeg(_), SDiv(_,_), SFn(_,_), SPow(_,_), SDPow(_,_), SZero, SOne, AdjCanon(_,_)
 
 INSTANCE AutodiffAbs
 
